@@ -1071,6 +1071,8 @@ def systematic_cases():
     for k, m in maps.items():
         out.append((dict(label=f"sys-map-{k}", name="fun", n=3, qmap=m, gates=base), "systematic-map"))
     out.append((dict(label="sys-map-missing-unused", name="fun", n=3, qmap=[["a", 0], ["c", 2]], gates=[mk("CX", [0, 2])]), "systematic-map"))
+    out.append((dict(label="sys-map-fallback-clash", name="g", n=2, qmap=[["q1", 0]], gates=[mk("CX", [0, 1])]), "systematic-map"))
+    out.append((dict(label="sys-map-fallback-clash2", name="g", n=3, qmap=[["q2", 0], ["_q2", 1]], gates=[mk("CCX", [0, 1, 2])]), "systematic-map"))
     out.append((dict(label="sys-name-dashed", name="my-gate", n=3, qmap=[["a", 0], ["b", 1], ["c", 2]], gates=base), "systematic-map"))
     out.append((dict(label="sys-empty", name="qc", n=2, qmap=default_map(2), gates=[]), "systematic"))
     out.append((dict(label="sys-name-clash", name="x", n=1, qmap=default_map(1), gates=[mk("X", [0])]), "systematic"))
